@@ -169,6 +169,10 @@ const (
 	symFailure
 	symReplay         // second call of a retry only: the valid server-final of the FIRST call
 	symReplayDialogue // the last valid server-final (symbol 3) sent earlier in THIS dialogue, resent
+	symFirstEmpty     // server-first with an empty r=
+	symFirstOne       // server-first whose r= is the first byte of the client nonce
+	symFirstShort     // server-first whose r= is the client nonce without its last byte (nothing appended)
+	symFirstExact     // server-first whose r= is the client nonce exactly (no server part)
 )
 
 type reply struct {
@@ -191,6 +195,19 @@ func concretize(h saslx.Hash, p params, prev string, sym byte, v *view) reply {
 			cn = cn[:len(cn)-1]
 		}
 		m := "r=" + cn + "~" + p.nonce + tail
+		v.sfirst = m
+		return chal(m)
+	case symFirstEmpty, symFirstOne, symFirstShort, symFirstExact:
+		cn := v.cn
+		switch {
+		case sym == symFirstEmpty:
+			cn = ""
+		case sym == symFirstOne && len(cn) > 1:
+			cn = cn[:1]
+		case sym == symFirstShort && len(cn) > 0:
+			cn = cn[:len(cn)-1]
+		}
+		m := "r=" + cn + tail
 		v.sfirst = m
 		return chal(m)
 	case symFirstMalformed:
@@ -362,7 +379,7 @@ func optHex(b []byte, ok bool) string {
 
 func nontrivial(syms []byte) bool {
 	for _, s := range syms {
-		if s <= symFinalEmpty || s == symReplay || s == symReplayDialogue {
+		if s <= symFinalEmpty || s >= symReplay {
 			return true
 		}
 	}
@@ -516,6 +533,28 @@ func Run(r *hx.Run, replay []hx.Case) {
 						full = append(full, sufAlpha[x])
 					}
 					r.Dist["family:restart"]++
+					runCase(r, mkCase(r, "c15", v.name, full, nil, "user", "pencil", salt, 2))
+					return true
+				})
+			}
+		}
+	}
+	// server-first whose r= is only a prefix of the client nonce (lengths 0, 1, len-1) or exactly the client nonce:
+	// [empty, that server-first] ++ suffix over {valid final, 235, final over empty state, valid first, empty, 535,
+	// final under another key} up to length 2
+	pfxAlpha := []byte{symFinal, symSuccess, symFinalEmpty, symFirst, symEmpty, symFailure, symFinalOther}
+	for _, v := range variants {
+		for _, sf := range []byte{symFirstEmpty, symFirstOne, symFirstShort, symFirstExact} {
+			for n := 0; n <= 2; n++ {
+				enumerate(n, len(pfxAlpha), func(seq []byte) bool {
+					if r.Expired() {
+						return false
+					}
+					full := []byte{symEmpty, sf}
+					for _, x := range seq {
+						full = append(full, pfxAlpha[x])
+					}
+					r.Dist["family:nonce-prefix"]++
 					runCase(r, mkCase(r, "c15", v.name, full, nil, "user", "pencil", salt, 2))
 					return true
 				})
